@@ -44,6 +44,9 @@ fn main() {
     common::panics::install_hook();
     let code = match id.as_str() {
         "C01" => checks::c01::main(tier, replay),
+        "C03" => checks::c03::main(tier, replay),
+        "C07" => checks::c07::main(tier, replay),
+        "C08" => checks::c08::main(tier, replay),
         _ => {
             eprintln!("unknown property {}", id);
             2
